@@ -128,8 +128,9 @@ def main(ctx):
     res_sig = run_table(ctx, 'sshsig', emit=True, two=True)
     res_ver = run_table(ctx, 'verify', emit=True)
     res_ident = run_table(ctx, 'ident', emit=True)
+    res_cross = run_table(ctx, 'cross', emit=True)
     sens = [('cert', 'closed_before'), ('sshsig', 'ignore_namespace'),
-            ('ident', 'empty_is_none')]
+            ('ident', 'empty_is_none'), ('cross', 'SharedNameSet')]
     if not quick:
         sens += [('cert', 'no_principal'), ('cert', 'accept_unknown_critical'),
                  ('verify', 'ignore_algname'), ('verify', 'normalise_sig'),
@@ -143,11 +144,13 @@ def main(ctx):
     sig_rows = rows_of(res_sig)
     ver_rows = rows_of(res_ver)
     ident_rows = rows_of(res_ident)
+    cross_rows = rows_of(res_cross)
+    ctx.require(len(cross_rows) >= 1000, f'cross rows: {len(cross_rows)}')
     ctx.require(len(ident_rows) >= 1500, f'ident rows: {len(ident_rows)}')
     ctx.require(len(cert_rows) == 82944, f'cert rows: {len(cert_rows)}')
     ctx.require(len(sig_rows) >= 5000, f'sshsig rows: {len(sig_rows)}')
     ctx.require(len(ver_rows) >= 400, f'verify rows: {len(ver_rows)}')
-    for rows in (cert_rows, sig_rows, ver_rows, ident_rows):
+    for rows in (cert_rows, sig_rows, ver_rows, ident_rows, cross_rows):
         ctx.require(any(r[1] == 'accept' for r in rows) and
                     any(r[1] == 'reject' for r in rows), 'degenerate table')
 
@@ -175,7 +178,8 @@ def main(ctx):
             use = algs
         # classes with odd principal names are materialised several times
         # (different odd names / counts / positions)
-        reps = 3 if 'odd' in cls[1] and cls[4] == 'ok' and only.rp is None \
+        reps = (2 if quick else 3) if 'odd' in cls[1] and cls[4] == 'ok' \
+            and only.rp is None \
             else 1
         use = [a for a in use for _ in range(reps)]
         for ai, (aname, kalg, sig_alg) in enumerate(use):
@@ -394,6 +398,10 @@ def main(ctx):
                     'live_rows': len(live), 'example_row': r0[0],
                     'rule_verdict': r0[1]}, limit=8)
 
+    # ---- 2e. cross-algorithm table ----------------------------------------------
+    if only.kind('cross'):
+        cross_table(ctx, D, cross_rows, only)
+
     # ---- 3. byte sweeps -----------------------------------------------------
     masks = D.MASKS_QUICK if quick else D.MASKS_THOROUGH
     for aname, kalg, sig_alg in algs:
@@ -546,6 +554,89 @@ def main(ctx):
         'asyncssh key.sign(); ssh-keygen -L confirms on samples that OpenSSH '
         'parses them as intended',
     ]
+
+
+def cross_table(ctx, D, cross_rows, only):
+    """Every key x every registered algorithm name as outer name of a genuine
+    signature (verify / CA signature / SSHSIG): alone in a fresh interpreter
+    (built = {}), and after keys of all other types were constructed and used
+    in this process, in both construction orders."""
+    import json
+    sel = [(r, v, st) for r, v, st in cross_rows if only.row('cross', r)]
+    spec_names = {}
+    for r, v, st in cross_rows:
+        if v == 'accept' or st == 'crypto':     # not refused at stage "alg"
+            spec_names.setdefault(r['key'], set()).add(r['name'])
+
+    def judge(row, verdict, stage, ok, where):
+        if ok is None:
+            return
+        ctx.count(('cross', row['key'], row['sigalg'], row['name'],
+                   row['path'], str(row['built']), row['order']))
+        if ok and verdict == 'reject':
+            ctx.violation(
+                {'module': 'SigCert', 'table': 'cross', 'row': row},
+                f'{row["key"]} key accepts a genuine {row["sigalg"]} '
+                f'signature relabelled {row["name"]!r} ({row["path"]}, '
+                f'{where})', replay={'kind': 'cross', 'row': row})
+        elif not ok and verdict == 'accept':
+            sig = {'module': 'SigCert', 'table': 'cross', 'row': row}
+            if row['name'] == row['sigalg']:
+                ctx.violation(sig, f'{row["key"]}: the unaltered '
+                              f'{row["sigalg"]} signature is refused '
+                              f'({row["path"]}, {where})',
+                              replay={'kind': 'cross', 'row': row})
+            else:
+                ctx.divergence(f'cross table: alias {row["name"]} of '
+                               f'{row["sigalg"]} refused ({row["path"]}, '
+                               f'{where})')
+
+    # built = {}: one fresh interpreter per key type
+    procs = {}
+    for kind in D.XORDER:
+        rows = [(r, v, st) for r, v, st in sel if r['key'] == kind and
+                not r['built']]
+        if rows:
+            procs[kind] = (rows, D.cross_isolated(kind, [r for r, _, _
+                                                         in rows]))
+    for kind, (rows, (p, payload)) in procs.items():
+        out, err = p.communicate(payload, timeout=600)
+        try:
+            ans = json.loads(out)
+        except ValueError:
+            raise MachineryError(f'isolated cross run for {kind} failed: '
+                                 f'{err[-500:]}') from None
+        for (row, verdict, stage), ok in zip(rows, ans['results']):
+            judge(row, verdict, stage, ok, 'key alone in the process')
+    # built = all: both construction orders
+    for order, kinds in (('fwd', D.XORDER), ('rev', D.XORDER[::-1])):
+        w = D.CrossWorld(kinds)
+        for kind in w.keys:
+            priv, pub = w.names_now(kind)
+            ctx.count(('cross-names', kind, order))
+            if priv != w.born[kind] or pub != w.born[kind]:
+                ctx.violation(
+                    {'module': 'SigCert', 'table': 'cross',
+                     'step': 'NameSetLocal', 'key': kind},
+                    f'the algorithm names a {kind} key object accepts '
+                    f'changed after other keys were constructed: '
+                    f'{sorted(w.born[kind])} -> {sorted(priv | pub)}',
+                    replay={'kind': 'cross', 'row': None})
+            want = {n.encode() for n in spec_names.get(kind, ())}
+            if w.born[kind] != want and only.rp is None:
+                ctx.divergence(f'cross table: a {kind} key accepts the names '
+                               f'{sorted(w.born[kind])}, the model says '
+                               f'{sorted(want)}')
+        for row, verdict, stage in sel:
+            if row['built'] and row['order'] == order:
+                judge(row, verdict, stage, w.run(row),
+                      f'after keys of all types were constructed, order '
+                      f'{order}')
+    if only.rp is None:
+        ex = [r for r in cross_rows if r[0]['key'] == 'ecdsa256' and
+              r[0]['name'] == 'ecdsa-sha2-nistp384' and r[0]['built']][0]
+        ctx.sample({'table': 'cross', 'rows': len(cross_rows),
+                    'example_row': ex[0], 'rule_verdict': ex[1]}, limit=10)
 
 
 def second_opinions(ctx, D, scr, algs, worlds, sig_rows, rnd, quick):
